@@ -75,7 +75,7 @@ def strat_graph(tier):
         'nodes': graphs(),
         'perm': st.lists(st.integers(0, 10 ** 6), min_size=9, max_size=9),
         'seed': seeds, 'seed_type': st.sampled_from(['int', 'uint32', 'int32']),
-        'bs': st.integers(1, 5), 'index': st.one_of(st.integers(0, 5), st.integers(0, 60)),
+        'bs': st.integers(1, 5), 'index': st.one_of(st.integers(0, 5), st.integers(0, 60), st.integers(0, 60), st.sampled_from([1023, 1024, 1500, 2500])),
         'outputs': st.lists(st.integers(0, 10 ** 6), min_size=1, max_size=5),
         'history': st.lists(st.one_of(st.tuples(st.just('npseed'), st.integers(0, 1000)),
                                       st.tuples(st.just('nprand'), st.integers(1, 50)),
@@ -130,6 +130,21 @@ def _compute(m, outputs, bs, seed, index, client=None, warm=()):
         h.compute(i)
     termops.reset()
     return termops.canon(h.compute(index))
+
+
+def _compute_given(m, outputs, bs, seed, index, given, warm=()):
+    """One batch with the value of some nodes GIVEN (what SMC / BOLFI do with parameters), optionally on a handler that
+    computed other batches before."""
+    import elfi.client
+    from elfi.model.elfi_model import ComputationContext
+    h = elfi.client.BatchHandler(m, ComputationContext(batch_size=bs, seed=seed), output_names=list(outputs))
+    for i in warm:
+        h.compute(i)
+    termops.reset()
+    h._next_batch_index = index
+    h.submit(dict(given))
+    out, bi = h.wait_next()
+    return termops.canon(out), [e[0] for e in termops.LOG if isinstance(e, tuple)]
 
 
 def run_graph(case):
@@ -194,6 +209,24 @@ def run_graph(case):
     hist_order = [e[0] for e in termops.LOG if isinstance(e, tuple)]
     if hist_order != order:
         raise Violation('C02:draw-order-history-dependent', 'stochastic nodes ran in order %r, fresh run %r; %s' % (hist_order, order, ctx))
+    # R7 a stochastic output computed in earlier batches and GIVEN in this one: the batch is still a function of (seed, index, given
+    # value) only - a fresh handler and one that computed other batches before must agree, in values and in who draws
+    stoch_out = [nm for nm in outputs if nm in pos]
+    if stoch_out:
+        t = stoch_out[case['index'] % len(stoch_out)]
+        with must_not_raise(P, 'batch with the value of %s given; %s' % (t, ctx)):
+            import elfi.client as _ec
+            from elfi.model.elfi_model import ComputationContext as _CC
+            raw = _ec.BatchHandler(m, _CC(batch_size=bs, seed=seed), output_names=list(outputs)).compute(index)
+            fresh_g, fresh_order = _compute_given(m, outputs, bs, seed, index, {t: raw[t]})
+            warm_g, warm_order = _compute_given(m, outputs, bs, seed, index, {t: raw[t]}, warm=[index + 1, 0])
+        if warm_g != fresh_g or warm_order != fresh_order:
+            raise Violation('C02:given-value-batch-history-dependent',
+                            'batch %d with the value of %s given: a handler that computed batches %r before gives another result / draw order (%r) than a fresh handler (%r); %s'
+                            % (index, t, [index + 1, 0], warm_order, fresh_order, ctx))
+        if t in fresh_order:
+            raise Violation('C02:given-node-drew', 'node %s was given but still drew from the generator; %s' % (t, ctx))
+        labels.append('given-stochastic-output')
     # via ElfiModel.generate for batch index 0
     if index == 0:
         termops.reset()
@@ -298,7 +331,7 @@ CHECK = Check(
     P, 'exploration',
     rule=('graph part: Hypothesis-generated DAGs of 2-9 named nodes (names mostly case twins such as a/A, mu/MU/Mu, n2/n10; Prior/Simulator operations that draw 0-3 values from the generator '
           'they are handed and report them, deterministic Operations, Constants), seeds over uint32 as int/np.uint32/np.int32, batch '
-          'sizes 1-5, batch indices 0-60, output subsets, histories of 0-6 unrelated actions (np.random reseed/consume, other models, '
+          'sizes 1-5, batch indices 0-60 and beyond 1023 (long jumps of the sub-seed stream), output subsets, histories of 0-6 unrelated actions (np.random reseed/consume, other models, '
           'other batch indices on the SAME context incl. later and repeated ones), a second insertion order, multiprocessing client '
           'on every 5th case. Non-trivial = >=2 stochastic nodes with a dependency between two of them and a non-empty history. '
           'sampler part: seeded Rejection/SMC runs repeated after a history and on a 2-worker multiprocessing client.'),
